@@ -70,6 +70,14 @@ func c09Servers() []c09server {
 			}
 			return "", nil, false
 		}},
+		{"same-host-two-schemes", gen.Arr(gen.S{"url": "https://h.t/base"}, gen.S{"url": "http://h.t/base"}), func(scheme, host, path string) (string, map[string]string, bool) {
+			if (scheme == "https" || scheme == "http") && host == "h.t" {
+				if r, ok := c09MatchBase("/base")(path); ok {
+					return r, map[string]string{}, true
+				}
+			}
+			return "", nil, false
+		}},
 		{"path-level", nil, nil},
 		{"variables", gen.Arr(gen.S{"url": "https://{env}.h.t/{ver}", "variables": gen.S{"env": gen.S{"default": "prod", "enum": gen.Arr("prod", "dev")}, "ver": gen.S{"default": "v2"}}}),
 			func(scheme, host, path string) (string, map[string]string, bool) {
@@ -170,7 +178,7 @@ type c09Witness struct {
 func init() {
 	core.Register(&core.Check{
 		ID:   "C09",
-		Rule: "template sets: all single templates, all pairs and (quick: every 40th, thorough: every) triple of the 84 paths with <=3 segments over {a, b, {x}, {y}} (no repeated variable, no two templates of identical shape), methods GET on every path and POST on every other one; servers: none, relative /v1, absolute https://h.t/base, two servers, variables in host and base path; requests: every template filled with values from {a, b, 7} under every server spelling, methods GET/POST/DELETE, plus near misses (trailing slash, extra segment, missing segment, root, wrong scheme, wrong host, missing base path); both routers. Soundness (returned operation is the declared one, substitution reproduces the path), completeness, literal-wins and not-found are judged by an independent segment matcher. Distinct = (router, template set, server, request); non-trivial = the set has a variable or two templates sharing a first segment.",
+		Rule: "template sets: all single templates, all pairs and (quick: every 40th, thorough: every) triple of the 84 paths with <=3 segments over {a, b, {x}, {y}} (no repeated variable, no two templates of identical shape), methods GET on every path and POST on every other one; servers: none, relative /v1, absolute https://h.t/base, two servers, two servers differing in scheme only, variables in host and base path; requests: every template filled with values from {a, b, 7} under every server spelling, methods GET/POST/DELETE/HEAD (DELETE and HEAD are declared nowhere), plus near misses (trailing slash, extra segment, missing segment, root, wrong scheme, wrong host, missing base path); both routers. Soundness (returned operation is the declared one, substitution reproduces the path), completeness, literal-wins and not-found are judged by an independent segment matcher. Distinct = (router, template set, server, request); non-trivial = the set has a variable or two templates sharing a first segment.",
 		Assumptions: []string{
 			"a variable matches exactly one non-empty slash-free segment; a fully literal template wins over a templated one; when several templated ones match, any of them is a correct answer provided it declares the method",
 		},
@@ -299,6 +307,8 @@ func c09Set(c *core.Ctx, set []string, srv c09server) {
 		prefixes = []urlT{{"https", "h.t", "/base"}, {"http", "h.t", "/base"}, {"https", "other.t", "/base"}, {"https", "h.t", ""}}
 	case "two-servers":
 		prefixes = []urlT{{"https", "h.t", "/base"}, {"http", "alt.t", ""}, {"https", "alt.t", ""}, {"http", "h.t", "/base"}}
+	case "same-host-two-schemes":
+		prefixes = []urlT{{"https", "h.t", "/base"}, {"http", "h.t", "/base"}, {"http", "other.t", "/base"}}
 	case "path-level":
 		prefixes = []urlT{{"https", "p.t", "/px"}, {"http", "any.host", ""}, {"http", "p.t", "/px"}}
 	case "variables":
@@ -339,7 +349,7 @@ func c09Set(c *core.Ctx, set []string, srv c09server) {
 		var heldMethod, heldDesc string
 		for _, pf := range prefixes {
 			for _, p := range reqPaths {
-				for _, method := range []string{"GET", "POST", "DELETE"} {
+				for _, method := range []string{"GET", "POST", "DELETE", "HEAD"} {
 					full := pf.path + p
 					target := pf.scheme + "://" + pf.host + full
 					var req *http.Request
